@@ -322,7 +322,20 @@ fn scale_family(ctx: &mut WorkerCtx, fam: &str, gen: &dyn Fn(usize) -> Vec<u8>, 
             let mut failed = true;
             if let (Some((pn, pms)), Iso::Done(_)) = (prev_time, &r) {
                 let allowed = (pms.max(50.0)) * (n as f64 / pn as f64).powi(4) + 200.0;
-                if secs * 1000.0 > allowed {
+                let mut ms = secs * 1000.0;
+                if ms > allowed {
+                    // a loaded machine must not raise this alarm: measure again and keep the faster run
+                    let t2 = String::from_utf8(code.clone()).unwrap();
+                    let again = Instant::now();
+                    let _ = isolated(SCALE_CAP_SECS * 1000, move || {
+                        for b in [Backend::IrInt, Backend::BcInt, Backend::BaseJit] {
+                            let _ = compile(b, w, level, &t2);
+                        }
+                        Vec::new()
+                    });
+                    ms = ms.min(again.elapsed().as_secs_f64() * 1000.0);
+                }
+                if ms > allowed {
                     fail(ctx, &format!("scale-{fam}-{n}"), "time-blowup", w, level, &code,
                         format!("create took {:.0} ms at n={n} after {:.0} ms at n={pn}: faster than n^4 (source {} characters)", secs * 1000.0, pms, code.len()));
                     break;
